@@ -203,7 +203,7 @@ def c02_forms(extended):
         "std::array<std::array<pint, 2>, 2> ra{{ {{ e.raw(), e.raw() }}, {{ e.raw(), e.raw() }} }}; auto& v = *Wd::tptr<unsigned long long[2][2]>(e.sb, 512); v = ra; sink(e, v[0][0]);")
     add("r", "store struct array field = std::array of raw pointers", "std::array<pint, 2> ra{ e.raw(), e.raw() }; auto& v = *Wd::tptr<unsigned long long[2]>(e.sb, 512); v = ra; sink(e, v[1]);")
     # the two run-time entry points with function-pointer typed arguments, swept over the same addresses as the data-pointer forms
-    add("x", "entry-point sweep with function-pointer arguments", "if (mon::slice() == 0) { mon::Rng r(mon::seed() * 53 + 3); c02_entry_points_t<fnp>(e, r, \"(function-pointer)\"); mon::hit(\"entry-point-sweep-with-function-pointers\"); }")
+    add("x", "entry-point sweep with function-pointer arguments", "{ mon::Rng r(mon::seed() * 53 + 3); c02_entry_points_t<fnp>(e, r, \"(function-pointer)\"); mon::hit(\"entry-point-sweep-with-function-pointers\"); }")
     # raw function pointers
     add("r", "init tainted<fnp> = raw function", "fnp f = &plain_fn; tainted<fnp, S> t = f; sink(e, t);")
     add("r", "store volatile<fnp> = raw function", "fnp f = &plain_fn; e.V<fnp>() = f; sink(e, e.V<fnp>());")
@@ -231,6 +231,7 @@ def c02_forms(extended):
     # function-pointer type mismatches: "a callback or sandbox function address can be stored or passed only where the
     # function-pointer type matches" -- tag f: completing is the violation
     FA = "auto fa = e.sb.INTERNAL_get_sandbox_function_name<long(long)>(\"echo_int\");"
+    FP = "auto fp = e.nsb.UNSAFE_accept_pointer(e.raw());"
     add("f", "store volatile<fnp> = callback of other type", "auto c = e.sb.register_callback(cb_long); e.V<fnp>() = c; sink(e, e.V<fnp>());")
     add("f", "invoke(take_fn, callback of other type)", "auto c = e.sb.register_callback(cb_long); sink(e, Wd::invoke<fnp(fnp)>(e.sb, \"take_fn\", c));")
     add("f", "store volatile<fnp> = function address of other type", FA + " e.V<fnp>() = fa; sink(e, e.V<fnp>());")
@@ -240,12 +241,35 @@ def c02_forms(extended):
     add("f", "invoke(take_fn, function address of other type)", FA + " sink(e, Wd::invoke<fnp(fnp)>(e.sb, \"take_fn\", fa));")
     add("f", "invoke(take_fn, opaque function address of other type)", FA + " sink(e, Wd::invoke<fnp(fnp)>(e.sb, \"take_fn\", fa.to_opaque()));")
     add("f", "store volatile<cpchar> = function address", FA + " auto& v = *Wd::tptr<cpchar>(e.sb, e.off<cpchar>()); v = fa; sink(e, v);")
+    add("f", "store volatile<bool> = function address", FA + " auto& v = *Wd::tptr<bool>(e.sb, 776); v = fa; sink(e, v);")
     add("f", "store volatile<bool> = callback", "auto& v = *Wd::tptr<bool>(e.sb, 776); v = e.CB(); sink(e, v);")
     add("f", "store volatile<long> = callback", "auto& v = *Wd::tptr<long>(e.sb, 784); v = e.CB(); sink(e, v);")
     add("f", "store struct fn field = function address of other type", FA + " auto& v = e.V<fnp>(); v = fa; sink(e, v);")
     add("r", "init tainted<fnp> = callback", "tainted<fnp, S> t = e.CB(); sink(e, t);")
+    # arrays of function pointers of another type, arrays of other extents
+    FA2 = FA + " tainted<long (*[2])(long), S> ta; ta[0] = fa; ta[1] = fa;"
+    add("f", "store volatile<fnp[2]> = tainted array of function addresses of other type", FA2 + " auto& v = *Wd::tptr<fnp[2]>(e.sb, 800); v = ta; sink(e, v[0]);")
+    add("f", "store volatile<cpchar[2]> = tainted array of function addresses", FA2 + " auto& v = *Wd::tptr<cpchar[2]>(e.sb, 800); v = ta; sink(e, v[0]);")
+    add("f", "store volatile<fnp[2]> = volatile array of function addresses of other type", FA2 + " auto& w = *Wd::tptr<long (*[2])(long)>(e.sb, 832); w = ta; auto& v = *Wd::tptr<fnp[2]>(e.sb, 800); v = w; sink(e, v[0]);")
+    add("f", "store volatile<pint[3]> = tainted<pint[2]> (extents differ)", "tainted<pint[2], S> ta; ta[0] = nullptr; ta[1] = nullptr; auto& v = *Wd::tptr<pint[3]>(e.sb, 800); v = ta; sink(e, v[0]);")
+    add("f", "invoke(echo_bool, callback) (pointer-to-bool)", "sink(e, Wd::invoke<bool(bool)>(e.sb, \"echo_int\", e.CB()));")
+    add("f", "invoke(echo_int, function address) (pointer as integer)", FA + " sink(e, Wd::invoke<int(int)>(e.sb, \"echo_int\", fa));")
+    # structs / std::arrays of structs that contain raw pointers, and foreign wrappers, into integer arrays
+    add("r", "store volatile<unsigned long long[2]> = array of structs holding raw pointers", "struct Hd { int* p; }; Hd h[2] = { { e.raw() }, { e.raw() } }; auto& v = *Wd::tptr<unsigned long long[2]>(e.sb, 512); v = h; sink(e, v[0]);")
+    add("r", "store volatile<unsigned long long[2]> = std::array of structs holding raw pointers", "struct Hd { int* p; }; std::array<Hd, 2> h{ { { e.raw() }, { e.raw() } } }; auto& v = *Wd::tptr<unsigned long long[2]>(e.sb, 512); v = h; sink(e, v[0]);")
+    add("r", "store volatile<unsigned long long[2]> = array of tainted<pint,other>", FP + " tainted<pint, NS> h[2] = { fp, fp }; auto& v = *Wd::tptr<unsigned long long[2]>(e.sb, 512); v = h; sink(e, v[0]);")
+    # the bulk helpers with arrays of raw pointers, and with wrappers of another sandbox type
+    add("r", "copy_memory_or_grant_access(array of raw char*)", "char* arr[2] = { reinterpret_cast<char*>(e.raw()), reinterpret_cast<char*>(e.raw()) }; bool c = false; auto t = copy_memory_or_grant_access(e.sb, arr, 2, false, c); sink(e, t);")
+    add("r", "copy_memory_or_grant_access(array of raw double*)", "double* arr[2] = { reinterpret_cast<double*>(e.raw()), reinterpret_cast<double*>(e.raw()) }; bool c = false; auto t = copy_memory_or_grant_access(e.sb, arr, 2, false, c); sink(e, t);")
+    add("f", "memcpy(dest, tainted<char*,other> source)", "auto fsrc = e.nsb.UNSAFE_accept_pointer(reinterpret_cast<char*>(e.raw())); auto d = Wd::tptr<char>(e.sb, 512); rlbox::memcpy(e.sb, d, fsrc, 4u); sink(e, d);")
+    add("f", "memcmp(dest, tainted<char*,other>)", "auto fsrc = e.nsb.UNSAFE_accept_pointer(reinterpret_cast<char*>(e.raw())); auto d = Wd::tptr<char>(e.sb, 512); auto h = rlbox::memcmp(e.sb, d, fsrc, 4u); (void)h; sink(e, d);")
+    add("f", "memset(dest, tainted<int,other>, n)", "auto d = Wd::tptr<char>(e.sb, 512); rlbox::memset(e.sb, d, e.NT<int>(), 4u); sink(e, d);")
+    add("f", "memset(dest, 0, tainted<unsigned,other>)", "auto d = Wd::tptr<char>(e.sb, 512); rlbox::memset(e.sb, d, 0, e.NT<unsigned int>()); sink(e, d);")
+    add("f", "compound volatile<int> += tainted<int,other>", "e.V<int>() += e.NT<int>(); sink(e, e.V<int>());")
+    add("n", "compound tainted<int> + tainted<int,other>", "sink(e, e.T_<int>() + e.NT<int>());")
+    add("n", "compound tainted<pint> + tainted<int,other>", "sink(e, e.T_<pint>() + e.NT<int>());")
+    add("n", "index tainted<pint>[tainted<int,other>]", "auto p = Wd::tptr<int>(e.sb, 512); sink(e, p[e.NT<int>()]);")
     # pointers held by a wrapper of ANOTHER sandbox type (here: a noop sandbox, whose pointers are application addresses)
-    FP = "auto fp = e.nsb.UNSAFE_accept_pointer(e.raw());"
     add("r", "store volatile<pint> = tainted<pint,other>", FP + " e.V<pint>() = fp; sink(e, e.V<pint>());")
     add("r", "init tainted<pint,S> = tainted<pint,other>", FP + " tainted<pint, S> t = fp; sink(e, t);")
     add("r", "assign tainted<pint,S> = tainted<pint,other>", FP + " tainted<pint, S> t = nullptr; t = fp; sink(e, t);")
